@@ -124,6 +124,7 @@ def scribble(x):
         x.append("SCRIBBLE")
 
 
+NEIGHBOUR_OPS = ("nb-update", "nb-rename", "nb-remove", "nb-disable", "nb-cycle", "nb-replace")
 MARKER_SETS = [None, ("# [Filter] ", "# (Desc)+ "), ("#N ", "#D ")]
 
 
@@ -141,6 +142,30 @@ def one(ns, conds, acts, mt, via_update=False, markers=None):
             # the filter already has exactly these conditions and actions, under the other match type
             fs.addfilter("f", list(conds), list(acts), "allof" if mt == "anyof" else "anyof")
             fs.updatefilter("f", "f", list(conds), list(acts), mt)
+        elif isinstance(via_update, str) and via_update.startswith("nb-"):
+            # the filter lives between two neighbours, and the set is edited elsewhere after it was built: nothing done to another
+            # filter may change what is read back from this one (on the set itself and after a reload)
+            fs.addfilter("n1", [("X", ":is", "y")], [("fileinto", ":copy", "N")])
+            fs.addfilter("f", list(conds), list(acts), mt)
+            fs.addfilter("n2", [("size", ":over", "1k")], [("stop",)])
+            op = via_update[3:]
+            if op == "update":
+                fs.updatefilter("n1", "n1", [("Subject", ":contains", "y")], [("keep",)])
+            elif op == "rename":
+                fs.updatefilter("n2", "n3", [("Subject", ":contains", "y")], [("keep",)], "allof")
+            elif op == "remove":
+                fs.removefilter("n1")
+            elif op == "disable":
+                fs.disablefilter("n2")
+            elif op == "cycle":
+                fs.disablefilter("n1")
+                fs.enablefilter("n1")
+                fs.movefilter("f", "down")
+                fs.movefilter("n2", "down")
+            elif op == "replace":
+                fs.replacefilter("n1", fs.getfilter("n2"), "n4", "moved")
+            else:
+                raise AssertionError(op)
         elif via_update:
             fs.addfilter("f", [("X", ":is", "y")], [("keep",)])
             fs.updatefilter("f", "f", list(conds), list(acts), mt)
@@ -205,7 +230,7 @@ def form_task(t):
         vals = ["x"]
     for V in vals:
         for mt in ("anyof", "allof"):
-            for via_update in (False, True, "disabled-rename", "same-def-other-matchtype") if V in ("a", "a, b") else (False,):
+            for via_update in (False, True, "disabled-rename", "same-def-other-matchtype") + NEIGHBOUR_OPS if V in ("a", "a, b") else (False,):
                 if is_action:
                     conds, acts = [("Subject", ":is", "x")], mk(V)
                 else:
